@@ -51,7 +51,24 @@ pub fn install_hooks() {
 
 enum Node {
     Op(String, usize),
-    Catch(Vec<Node>, usize),
+    /// body, position, whether the body owns a clean-up guard ("genter")
+    Catch(Vec<Node>, usize, bool),
+}
+
+/// clean-up guard of a "genter" frame: when the frame is left - normally or by unwinding - it runs a nested
+/// catch_panic that returns normally, and the thread records what that call returned
+struct Guard(*mut Vec<Value>);
+impl Drop for Guard {
+    fn drop(&mut self) {
+        let r = catch_panic(|| 7u32);
+        // SAFETY: the observation log outlives every frame of the script and is only touched by this thread
+        let obs = unsafe { &mut *self.0 };
+        match r {
+            Ok(7) => obs.push(json!({"k": "gok", "m": 0})),
+            Ok(_) => obs.push(json!({"k": "gwrong", "m": 0})),
+            Err(text) => obs.push(json!({"k": "gerr", "m": msg_id(&text)})),
+        }
+    }
 }
 
 fn parse(ops: &[String], i: &mut usize) -> Vec<Node> {
@@ -59,10 +76,11 @@ fn parse(ops: &[String], i: &mut usize) -> Vec<Node> {
     while *i < ops.len() {
         let pos = *i + 1;
         match ops[*i].as_str() {
-            "enter" => {
+            "enter" | "genter" => {
+                let guard = ops[*i] == "genter";
                 *i += 1;
                 let body = parse(ops, i);
-                out.push(Node::Catch(body, pos));
+                out.push(Node::Catch(body, pos, guard));
             }
             "ret" => {
                 *i += 1;
@@ -141,10 +159,13 @@ impl Th<'_> {
                     }
                     self.done_step();
                 }
-                Node::Catch(inner, _pos) => {
+                Node::Catch(inner, _pos, guard) => {
                     self.wait_turn();
                     let me: *mut Th<'_> = self;
+                    let obs_ptr: *mut Vec<Value> = &mut self.obs;
+                    let guard = *guard;
                     let r = catch_panic(AssertUnwindSafe(|| {
+                        let _g = if guard { Some(Guard(obs_ptr)) } else { None };
                         // SAFETY: the closure runs synchronously on this thread
                         let s = unsafe { &mut *me };
                         s.done_step(); // the "enter" step
@@ -188,6 +209,7 @@ fn run_thread_gated(t: usize, ops: Vec<String>, turn: Option<Arc<Turn>>, gate: O
     use std::sync::atomic::Ordering;
     let h = std::thread::Builder::new()
         .name(format!("script-{t}"))
+        .stack_size((2usize << 20).max(ops.len() * (64 << 10)))
         .spawn(move || {
             let mut i = 0;
             let tree = parse(&ops, &mut i);
@@ -252,6 +274,21 @@ pub fn replay_panic(v: &Value) -> (Value, Vec<String>) {
     (json!(res), diffs)
 }
 
+/// one deeply nested script (fresh process): enable, `depth` nested frames (every 7th with a clean-up guard), a panic
+/// in the innermost one, then every frame returns
+pub fn deep_script(depth: usize) -> Vec<String> {
+    let mut s = vec!["enable".to_string()];
+    for k in 0..depth {
+        s.push(if k % 7 == 3 { "genter" } else { "enter" }.to_string());
+    }
+    s.push("panic".to_string());
+    s.push("bt".to_string());
+    for _ in 0..depth {
+        s.push("ret".to_string());
+    }
+    s
+}
+
 /// impl -> spec: `n` rounds of 8 threads running random well-bracketed scripts concurrently
 pub fn gen_panic(seed: u64, rounds: usize, len: usize, out: &mut Vec<Value>) {
     use rand::Rng;
@@ -268,7 +305,8 @@ pub fn gen_panic(seed: u64, rounds: usize, len: usize, out: &mut Vec<Value>) {
                 let o = match r.random_range(0..16) {
                     0 | 1 => "enable",
                     2 => "disable",
-                    3..=5 => "enter",
+                    3 | 4 => "enter",
+                    5 => "genter",
                     6..=8 => "ret",
                     9 | 10 => "panic",
                     11 => "sethook",
@@ -281,7 +319,7 @@ pub fn gen_panic(seed: u64, rounds: usize, len: usize, out: &mut Vec<Value>) {
                     }
                     depth -= 1;
                 }
-                if o == "enter" {
+                if o == "enter" || o == "genter" {
                     if depth >= 6 {
                         continue;
                     }
